@@ -49,13 +49,26 @@ def instances(tier):
     for g in (4, 5):
         out.append({"kind": "queued_fault", "gen": g, "retries": 1})
         out.append({"kind": "queued_fault", "gen": g, "retries": 2})
+    for g in (4, 5):
+        out.append({"kind": "bp_expiry", "gen": g})
+        out.append({"kind": "connected_policy", "gen": g})
+        for call in API_CALLS:
+            out.append({"kind": "api_cmd", "gen": g, "call": call})
+        for what in ("heartbeat", "refresh", "error_info"):
+            out.append({"kind": "api_internal", "gen": g, "what": what})
     out.append({"kind": "peer_reset", "gen": 4, "retries": 1})
     out.append({"kind": "peer_reset", "gen": 5, "retries": 0})
     return out
 
 
+API_CALLS = ["ac_toggle", "ac_on", "ac_mode", "ac_fan", "ac_temp", "zone_power", "zone_damper", "zone_temp", "timer_time", "timer_clear",
+             "timer_duration", "check_updates"]
+
+
 def expect_labels(tier):
-    return ["count_le_1_plus_retries", "never_at_or_after_expiry", "resent_first_on_next_connection", "no_resend_after_success"]
+    return ["count_le_1_plus_retries", "never_at_or_after_expiry", "resent_first_on_next_connection", "no_resend_after_success",
+            "api.accumulating_commands_once", "api.idempotent_commands_resent_first", "api.internal_requests_never_resent",
+            "connected_policy.one_second"]
 
 
 def _frames(g, conn):
@@ -79,6 +92,14 @@ def run(ctx, p):
         return _faults(ctx, p)
     if p["kind"] == "queued_fault":
         return _queued_fault(ctx, p)
+    if p["kind"] == "bp_expiry":
+        return _bp_expiry(ctx, p)
+    if p["kind"] == "connected_policy":
+        return _connected_policy(ctx, p)
+    if p["kind"] == "api_cmd":
+        return _api_cmd(ctx, p)
+    if p["kind"] == "api_internal":
+        return _api_internal(ctx, p)
     return _peer_reset(ctx, p)
 
 
@@ -292,3 +313,212 @@ def _queued_fault(ctx, p):
             ctx.check(len(a0) == 0, "never_at_or_after_expiry", detail="expired message transmitted")
             ctx.reach("resent_first_on_next_connection")
         ctx.check(not rig.task_failures(), "count_le_1_plus_retries", detail="unhandled exception in a socket task")
+
+
+def _bp_expiry(ctx, p):
+    """Two messages held while the link is down; on the new connection the first write suspends in drain()
+    (back-pressure) for a symbolic time; the second message's lifetime may run out meanwhile: it must not be
+    written at or after its expiry."""
+    g = Gen(p["gen"])
+    S = socket_mod()
+    entry = catalog.catalog(g)[3]
+    L1 = ctx.real("L1", 0, 6, lo_strict=True)
+    bp = ctx.real("bp", 0, 4, lo_strict=True)
+    t1 = ctx.real("t1", 0, 2, hi_strict=True)
+    with Rig(ctx, g) as rig:
+        rig.net.on_connect = lambda net, n: ("refuse",) if n == 0 else ("accept", 0)
+        rig.net.on_drain = lambda conn, n: (bp if n == 1 else None)
+
+        async def s(i, L, at_least_retry=0):
+            try:
+                await rig.sock.send(entry[1](i + 1), S.RetryPolicy(max_retries=at_least_retry, max_lifetime=L))
+            except Exception:  # noqa: BLE001
+                pass
+
+        rig.spawn(rig.sock.open_socket())
+        rig.loop.vt_call_at(0.5, lambda: rig.spawn(s(0, 30.0)))
+        rig.loop.vt_call_at(t1, lambda: rig.spawn(s(1, L1)))
+        rig.loop.vt_run(20.25)
+        per = [_frames(g, c) for c in rig.net.conns]
+        m1 = bytes(entry[3](2))
+        a1 = [f for fs in per for f in fs if f[2] == m1]
+        ctx.observe("second_written", len(a1))
+        ctx.check(len(a1) <= 1, "count_le_1_plus_retries")
+        ctx.check(sym_and(*[f[3] < t1 + L1 for f in a1]), "never_at_or_after_expiry", detail="written at/after expiry under back-pressure")
+        ctx.reach("resent_first_on_next_connection")
+        ctx.reach("no_resend_after_success")
+        ctx.check(not rig.task_failures(), "count_le_1_plus_retries", detail="unhandled exception in a socket task")
+
+
+def _connected_policy(ctx, p):
+    """The library's 'only while connected' policy constant: a request submitted while the link is down is
+    transmitted iff a connection exists within one second (strictly), and never retried."""
+    g = Gen(p["gen"])
+    S = socket_mod()
+    entry = catalog.catalog(g)[5]       # a status request
+    ts = ctx.real("ts", 0, 1.5)
+    lat = ctx.real("lat", 0, 2.0)
+    with Rig(ctx, g) as rig:
+        # the first attempt is refused, the retry (at 2 s) is accepted after lat
+        rig.net.on_connect = lambda net, n: ("refuse",) if n == 0 else ("accept", lat)
+        rig.net.on_drain = lambda conn, n: (ConnectionResetError("x") if (conn.index == 0 and n == 1) else None)
+
+        async def s():
+            try:
+                await rig.sock.send(entry[1](0), S.RETRY_CONNECTED)
+            except Exception:  # noqa: BLE001
+                pass
+
+        rig.spawn(rig.sock.open_socket())
+        tsend = 1.0 + ts
+        rig.loop.vt_call_at(tsend, lambda: rig.spawn(s()))
+        rig.loop.vt_run(20.25)
+        per = [_frames(g, c) for c in rig.net.conns]
+        mine = [f for fs in per for f in fs if f[1] == entry[2]]
+        Tc = 2.0 + lat
+        within = Tc < tsend + 1
+        w = bool(within) if isinstance(within, SymBool) else within
+        # written once iff the connection came within one second; its (faulted) write is never retried
+        ctx.check(len(mine) == (1 if w else 0), "connected_policy.one_second", detail={"appearances": len(mine), "within": w})
+        for lab in ("count_le_1_plus_retries", "never_at_or_after_expiry", "resent_first_on_next_connection", "no_resend_after_success"):
+            ctx.reach(lab)
+
+
+def _api_rig(ctx, g):
+    from .common import ApiRig
+    from .console import Installation
+    inst = Installation.simple(g.n, n_acs=1, zones_per_ac=1)
+    return ApiRig(ctx, g, inst), inst
+
+
+def _api_cmd(ctx, p):
+    """A public command whose first write fails; the link comes back 0.5 s later."""
+    import datetime
+    import importlib
+    A = importlib.import_module("pyairtouch.api")
+    g = Gen(p["gen"])
+    call = p["call"]
+    rig, inst = _api_rig(ctx, g)
+    with rig:
+        rig.net.on_connect = lambda net, n: ("accept", 0 if n == 0 else 0.5)
+        armed = {"on": False}
+
+        def on_drain(conn, n):
+            if armed["on"]:
+                armed["on"] = False
+                return ConnectionResetError("write fault")
+            return None
+
+        rig.net.on_drain = on_drain
+        rig.start()
+        rig.run(1.0)
+        ctx.check(rig.init_result is True, "api.idempotent_commands_resent_first", detail="handshake failed")
+        con = rig.console
+        n0 = len(con.requests)
+        ac, zone = rig.ac(0), rig.zone(0)
+
+        async def go():
+            armed["on"] = True
+            if call == "ac_toggle":
+                await ac.set_power(A.AcPowerControl.TOGGLE)
+            elif call == "ac_on":
+                await ac.set_power(A.AcPowerControl.TURN_ON)
+            elif call == "ac_mode":
+                await ac.set_mode(A.AcMode.COOL)
+            elif call == "ac_fan":
+                await ac.set_fan_speed(A.AcFanSpeed.LOW)
+            elif call == "ac_temp":
+                await ac.set_target_temperature(23.0)
+            elif call == "zone_power":
+                await zone.set_power(A.ZonePowerState.OFF)
+            elif call == "zone_damper":
+                await zone.set_damper_percentage(40)
+            elif call == "zone_temp":
+                await zone.set_target_temperature(22.0)
+            elif call == "timer_time":
+                await ac.set_quick_timer(A.AcTimerType.ON_TIMER, datetime.time(7, 30))
+            elif call == "timer_clear":
+                await ac.clear_quick_timer(A.AcTimerType.OFF_TIMER)
+            elif call == "timer_duration":
+                await ac.set_quick_timer(A.AcTimerType.OFF_TIMER, datetime.timedelta(hours=1))
+            elif call == "check_updates":
+                await rig.at.check_for_updates()
+
+        rig.spawn(go())
+        rig.run(6.0)
+        after = con.requests[n0:]
+        first = after[0] if after else None
+        same = [r for r in after if first is not None and bytes(r[2]["data"]) == bytes(first[2]["data"]) and r[2]["type"] == first[2]["type"]]
+        detail = {"call": call, "kinds": [k for _, k, _ in after]}
+        if call == "ac_toggle":
+            ctx.check(len(same) == 1, "api.accumulating_commands_once", detail=detail)
+            ctx.reach("api.idempotent_commands_resent_first")
+        else:
+            ctx.reach("api.accumulating_commands_once")
+            # re-sent, and first on the new connection (ahead of the refresh requests issued on reconnect)
+            conn1 = rig.net.conns[1] if len(rig.net.conns) > 1 else None
+            first_on_new = None
+            if conn1 is not None:
+                fr = framing.parse_stream(g.n, [int(x) for x in conn1.written()])
+                first_on_new = bytes(fr[0]["data"]) if fr else None
+            ok = len(same) == 2 and first_on_new == bytes(first[2]["data"])
+            ctx.check(ok, "api.idempotent_commands_resent_first", detail=dict(detail, appearances=len(same)))
+        ctx.reach("api.internal_requests_never_resent")
+        ctx.reach("connected_policy.one_second")
+        for lab in ("count_le_1_plus_retries", "never_at_or_after_expiry", "resent_first_on_next_connection", "no_resend_after_success"):
+            ctx.reach(lab)
+
+
+def _api_internal(ctx, p):
+    """Requests the library issues by itself (heartbeat, refresh after reconnect, error-info): a failed write
+    is never retried."""
+    g = Gen(p["gen"])
+    what = p["what"]
+    rig, inst = _api_rig(ctx, g)
+    with rig:
+        rig.net.on_connect = lambda net, n: ("accept", 0 if n == 0 else 0.5)
+        armed = {"kind": None, "hits": 0}
+        con = rig.console
+
+        def on_request(conn, kind, fr):
+            pass
+
+        def on_drain(conn, n):
+            # fail the drain that follows the first request of the armed kind
+            if armed["kind"] is not None and con.requests and con.requests[-1][1] == armed["kind"] and armed["hits"] == 0:
+                armed["hits"] = 1
+                return ConnectionResetError("write fault")
+            return None
+
+        rig.net.on_drain = on_drain
+        rig.start()
+        rig.run(1.0)
+        ctx.check(rig.init_result is True, "api.internal_requests_never_resent", detail="handshake failed")
+        n0 = len(con.requests)
+        if what == "heartbeat":
+            armed["kind"] = "version"
+            rig.run(302.0)               # the 300 s heartbeat request is written and its drain fails
+            horizon = 320.0
+        elif what == "refresh":
+            armed["kind"] = "ac_status"
+            con.push(None) if False else None
+            rig.net.conns[0].reset()     # outage: the client reconnects and issues the refresh requests
+            horizon = 10.0
+        else:
+            armed["kind"] = "error"
+            # an AC status report with an error code makes the client ask for the error text
+            inst.ac_status[0][-2 if g.n == 4 else -4] = 0x12 if g.n == 4 else 0
+            if g.n == 5:
+                inst.ac_status[0][7] = 0x12
+            con.push(con.ac_status_frame(pid=0x33))
+            horizon = 10.0
+        rig.run(horizon)
+        after = [k for _, k, _ in con.requests[n0:]]
+        cnt = after.count(armed["kind"])
+        ctx.check(armed["hits"] == 1, "api.internal_requests_never_resent", detail={"what": what, "why": "the targeted write was never attempted", "kinds": after})
+        # the faulted request itself is never written again; a *new* refresh after the next reconnect is a new request
+        exp = {"heartbeat": 1, "refresh": 2, "error_info": 1}[what]
+        ctx.check(cnt == exp, "api.internal_requests_never_resent", detail={"what": what, "count": cnt, "kinds": after})
+        for lab in ("count_le_1_plus_retries", "never_at_or_after_expiry", "resent_first_on_next_connection", "no_resend_after_success",
+                    "api.accumulating_commands_once", "api.idempotent_commands_resent_first", "connected_policy.one_second"):
+            ctx.reach(lab)
